@@ -26,6 +26,8 @@ FEATURES = {
     "two-key-updates": {"key_update_at": [1, 2], "n_app": 3},
     "new-connection-id": {"ncid": True, "ncid_at": 1},
     "retry": {"retry": True},
+    "retry-token-63": {"retry": True, "token_len": 63},
+    "retry-token-64": {"retry": True, "token_len": 64},          # the token length needs a two-byte var-int
     "zero-rtt": {"zero_rtt": True},
     "offered-other-first": {"offered_other_first": True},
     "keylog-reversed": {"keylog_order": "reversed"},
